@@ -176,3 +176,17 @@ Theorem C10_faulty_refines_world : forall w st m,
   end.
 Proof. exact rr_refines_world. Qed.
 Print Assumptions C10_faulty_refines_world.
+
+(** ... and over whole runs of sends: same outcomes, same bytes on the same wires, still in agreement afterwards *)
+From ZV Require Import Proofs.SendRefinementRuns.
+Theorem C10_faulty_runs_refine_world : forall ms w st,
+  World.w_type w = PUSH \/ World.w_type w = DEALER -> rr_agrees w st ->
+  Forall (fun m => lenN (encode_frames m) < 2 ^ 63) ms ->
+  let '(bs, w') := SocketProofs.sends w ms in
+  let '(rs, st') := rrun st (map RSend ms) in
+  rr_agrees w' st' /\
+  length bs = length ms /\ length rs = length ms /\
+  (forall i m b r, nth_error ms i = Some m -> nth_error bs i = Some b -> nth_error rs i = Some r -> same_outcome m b r) /\
+  exists d : N -> bytes, forall j, wire_w j w' = wire_w j w ++ d j /\ wire_of j st' = wire_of j st ++ d j.
+Proof. exact rr_runs_refine_world. Qed.
+Print Assumptions C10_faulty_runs_refine_world.
